@@ -1,12 +1,15 @@
 """C13 — mesh size doubles after a successful poll (up to a cap), shrinks after a failure."""
 from harness import comp_grid as G, runlevel as R, skel as S
 
-PROPS = ["Props/C13.v", "Props/C13grid.v"]
+PROPS = ["Props/C13.v", "Props/C13grid.v", "Props/C13hist.v"]
 TRANSLATORS = ["grid"]
 THEOREMS = ["C13_mesh_invariant", "C13_poll_update", "C13_poll_best_is_max", "C13_only_polls_change_mesh", "C13_tolmesh_msg", "C13_tolmesh_msg_run",
             # Props/C13grid.v: about gen/Src_grid.v (mesh sizes and exponents, tol_mesh snapping, forcing function, _eval_improvement_)
             "C13_mesh_is_power", "C13_mesh_order", "C13_tolmesh_test_is_exponent_test", "C13_search_exponent_is_source", "C13_search_mesh_le_poll_mesh",
-            "C13_tol_mesh_snap_least_power", "C13_tol_mesh_snap_same_stop", "C13_sufficient_improvement", "C13_improvement_without_sd", "C13_improvement_with_sd"]
+            "C13_tol_mesh_snap_least_power", "C13_tol_mesh_snap_same_stop", "C13_sufficient_improvement", "C13_improvement_without_sd", "C13_improvement_with_sd",
+            # Props/C13hist.v: the history-based decisions in terms of recorded values (side condition hist_ok)
+            "C13_quarter_means_stalling", "C03_stall_message_in_history_terms"]
+AXIOM_THEOREMS = ["C13_tol_mesh_snap_least_power", "C13_tol_mesh_snap_same_stop", "C13_sufficient_improvement", "C13_improvement_with_sd"]
 # the theorems over R (snapping, forcing function, _eval_improvement_ with SDs) use the standard library's real numbers
 ALLOWED_AXIOMS = ["ClassicalDedekindReals.sig_forall_dec", "ClassicalDedekindReals.sig_not_dec",
                   "FunctionalExtensionality.functional_extensionality_dep", "Classical_Prop.classic"]
